@@ -500,6 +500,9 @@ var soupAlphabet = []string{"{", "}", "[", "]", ",", ":", "+", "-", ".", "/", ";
 // the tokens that matter most for the parser's control flow (exhaustive scopes)
 var coreAlphabet = []string{"{", "}", "[", "]", ",", ":", "-", ".", ";", "\n", "a", "\"s\"", "1", "1.5", "null", "$"}
 
+// brackets, separators and one operand of each kind (deeper exhaustive scopes)
+var tinyAlphabet = []string{"{", "}", "[", "]", ",", "a", ":", "1", ";"}
+
 func join(toks []string, sep string) []byte { return []byte(strings.Join(toks, sep)) }
 
 func (g *gen) docEdits(doc []string, kinds []string, thorough bool) {
@@ -700,9 +703,11 @@ func (g *gen) generate(thorough bool) {
 	if thorough {
 		g.soupsExhaustive(coreAlphabet, 3, allKinds, "soup-exhaustive-3")
 		g.soupsExhaustive(coreAlphabet, 4, []string{"tojson", "unmarshal", "series"}, "soup-exhaustive-4")
-		g.soupsRandom(40000, 6, allKinds)
-		g.strtokCases(20000)
-		g.randomBytes(20000)
+		g.soupsExhaustive(tinyAlphabet, 5, []string{"tojson", "series"}, "soup-exhaustive-5-tiny")
+		g.soupsExhaustive(tinyAlphabet[:6], 6, []string{"tojson", "series"}, "soup-exhaustive-6-brackets")
+		g.soupsRandom(120000, 6, allKinds)
+		g.strtokCases(60000)
+		g.randomBytes(60000)
 	} else {
 		g.soupsExhaustive(coreAlphabet, 3, []string{"tojson", "series"}, "soup-exhaustive-3")
 		g.soupsRandom(2500, 4, allKinds)
